@@ -26,6 +26,9 @@ static const unsigned long COOKIE = 0x51f0c0de7ea5e11fUL;
 static SfShared *S;
 enum { MAXFD = 4096 };
 static short fd_obj[MAXFD];
+struct SfParty { int obj, op; long k; char cmd[1500]; };
+static SfParty parties[4];
+static int nparty;
 
 static inline long raw6(long nr, long a, long b, long c, long d, long e, long f)
 {
@@ -54,6 +57,7 @@ void simf_reset()
 {
   simf_shared();
   memset(S, 0, sizeof *S);
+  nparty = 0;
   S->io_hash = FNV_INIT;
   for (int i = 0; i < MAXFD; ++i) fd_obj[i] = -1;
 }
@@ -75,6 +79,29 @@ int simf_add_fault(int obj, int op, long k, int kind, int err, long bytes, int s
   SfFault &f = S->fault[S->nfault];
   f.obj = obj; f.op = op; f.k = k; f.kind = kind; f.err = err; f.bytes = bytes; f.sticky = sticky; f.fired = 0;
   return S->nfault++;
+}
+
+static int helper_run(const char *cmd);
+
+int simf_add_party(int obj, int op, long k, const char *cmd)
+{
+  if (nparty >= 4) return -1;
+  SfParty &p = parties[nparty];
+  p.obj = obj; p.op = op; p.k = k;
+  strncpy(p.cmd, cmd, sizeof(p.cmd) - 1);
+  return nparty++;
+}
+
+static void maybe_party(int obj, int op, long k)
+{
+  for (int i = 0; i < nparty; ++i)
+    if (parties[i].obj == obj && parties[i].op == op && parties[i].k == k && !S->party_fired[i])
+      {
+	S->party_fired[i] = 1;
+	S->party_status[i] = helper_run(parties[i].cmd);
+	long v[4] = { 1000 + i, op, k, S->party_status[i] };
+	S->io_hash = fnv1a(S->io_hash, v, sizeof v);
+      }
 }
 
 static SfFault *find_fault(int obj, int op, long k)
@@ -151,6 +178,7 @@ static long handle(long nr, long a0, long a1, long a2, long a3, long a4)
 	  {
 	    SfObj &o = S->obj[idx];
 	    long k = o.calls[SF_OPEN]++;
+	    maybe_party(idx, SF_OPEN, k);
 	    SfFault *f = find_fault(idx, SF_OPEN, k);
 	    if (f && f->kind == SFK_ERROR)
 	      {
@@ -171,6 +199,7 @@ static long handle(long nr, long a0, long a1, long a2, long a3, long a4)
     case SYS_close:
       {
 	int idx = a0 >= 0 && a0 < MAXFD ? fd_obj[a0] : -1;
+	if (idx >= 0) maybe_party(idx, SF_CLOSE, S->obj[idx].calls[SF_CLOSE]);
 	long r = pass(nr, a0, 0, 0, 0, 0);
 	if (idx < 0) { ++S->passthrough_total; return r; }
 	SfObj &o = S->obj[idx];
@@ -203,6 +232,7 @@ static long handle(long nr, long a0, long a1, long a2, long a3, long a4)
 	if (idx < 0) { ++S->passthrough_total; return pass(nr, a0, a1, a2, a3, a4); }
 	SfObj &o = S->obj[idx];
 	long k = o.calls[SF_WRITE]++;
+	maybe_party(idx, SF_WRITE, k);
 	long total = nr == SYS_writev ? iov_total((const struct iovec *) a1, a2) : a2;
 	o.bytes_w_requested += total;
 	long r;
@@ -358,9 +388,16 @@ bool simf_helper_active() { return h_pid > 0; }
 
 int simf_helper_system(const char *cmd)
 {
-  unsigned len = (unsigned) strlen(cmd);
+  if (S) maybe_party(-1, -1, S->system_calls);
   if (S && S->system_calls < 4) S->bytes_at_system[S->system_calls] = S->nobj > 0 ? S->obj[0].bytes_w : 0;
   if (S) ++S->system_calls;
+  return helper_run(cmd);
+}
+
+static int helper_run(const char *cmd)
+{
+  unsigned len = (unsigned) strlen(cmd);
+  if (h_pid <= 0) return -1;
   if (pass(SYS_write, h_cmd_w, (long) &len, sizeof len, 0, 0) != (long) sizeof len) return -1;
   size_t off = 0;
   while (off < len)
